@@ -16,18 +16,28 @@
 //! * the strategy (`XStrategy`) also chooses the cancels it adds to its `ClosePositions` answer, and the
 //!   risk manager (`XRisk`) may refuse single requests of a batch.
 //!
-//! Alphabet (see `M::gen_actions`): market trade, account fill, order snapshot (open / cancelled) of a
+//! Alphabet (see `M::gen_actions`): market trade, account fill that enters a position and the opposite
+//! fill that exits it (`PositionExit` tick), order snapshot (open / cancelled) of a
 //! tracked id, `TradingStateUpdate(Enabled|Disabled)`, the four commands (`SendOpenRequests` - also
-//! re-using the cid of an order tracked on ANOTHER instrument -, `SendCancelRequests`,
+//! re-using the cid of an order tracked on ANOTHER instrument, and the cid of an order tracked as open /
+//! cancel-in-flight on the SAME instrument -, `SendCancelRequests` - with the exchange's order id and,
+//! for an acknowledged order, also without it (`RequestCancel.id == None`) -,
 //! `ClosePositions(filter)` answered with market orders and optionally a cancel, `CancelOrders(filter)`),
+//! each command also next to a risk manager that refuses everything it is asked,
 //! `Shutdown`; probe events without successor (`Ev::is_probe`): account / market `Reconnecting` notice,
-//! balance snapshot, full account snapshot, cancel response (ok / rejected), market L1;
+//! balance snapshot, full account snapshot, cancel response (ok / rejected), market L1, a
+//! `SendOpenRequests` command carrying a long batch (`BULK` opens; the strategy proposes the same batch
+//! on an L1 tick);
 //! strategy menu: nothing / one open per exchange / open to an exchange index out of range / open whose
 //! exchange differs from the instrument's home exchange / two opens in one batch / cancel of a
-//! tracked id / cancel of an untracked id / open + cancel; risk menu: approve / refuse opens / refuse
+//! tracked id (with / without the exchange's order id) / re-open under a tracked cid / cancel of an
+//! untracked id / open + cancel; risk menu: approve / refuse opens / refuse
 //! cancels / refuse all / refuse one open of two; link modes per addressed exchange: healthy / closed
 //! (unrecoverable) / `None` entry / unhealthy (recoverable). Configurations: 1, 2 and 3 exchanges (the
-//! fresh engine state starts with every connection `Reconnecting`, so both connectivity values occur).
+//! fresh engine state starts with every connection `Reconnecting`, so both connectivity values occur);
+//! histories starting from fresh engine states (no asset balance known) and, at a shallower depth, from
+//! states in which the real engine has processed a balance snapshot for every asset (`funded`: free
+//! quote balance below the notional of the alphabet's opens on exchange 0, ample elsewhere).
 //!
 //! Oracle = the statement, rule by rule (signatures `C03/<rule>/...`):
 //!  R1 `sent-delivered-once`   every request reported `sent` (command output or algo output in the audit, or
@@ -41,12 +51,16 @@
 //!                             is closed / absent / out of range, was delivered nowhere, left no mark, and a
 //!                             fatal failure makes the tick terminal (the audit carries the error and
 //!                             `Terminal::is_terminal()` - what the run loops stop on - is true);
+//!                             (an open under a cid the engine still tracks may instead be declined: reported
+//!                             with an error, nowhere delivered, no mark - the statement does not say it must be sent);
 //!     `recoverable-failure`   conversely, with every link present (healthy / unhealthy) and only known exchanges
 //!                             named, the audit carries no unrecoverable error (the engine does not stop);
 //!  R4 `refused-*`             a request the risk manager refused is reported refused, delivered nowhere, no mark;
 //!  R5 `disabled-*`            while Disabled (and not on the enabling event) nothing the strategy proposed is
 //!                             delivered, marked or reported; commands are still actioned
-//!                             (`command-actioned`); market/account events update the state exactly as they
+//!                             (`command-actioned`) whatever the risk manager would say - a commanded request
+//!                             stays unissued only if it is reported as refused (never delivered, no mark);
+//!                             market/account events update the state exactly as they
 //!                             do when enabled (`disabled-state-still-updates`, differential);
 //!  R6 `enabled-generates`     on `TradingStateUpdate(Enabled)` (that very event) and on every market /
 //!                             account / trading event processed while enabled the strategy's approved
@@ -352,6 +366,8 @@ pub enum Filt {
 pub enum Ev {
     Market(usize),
     Fill(usize),
+    /// account trade of the opposite side and the same size as `Fill`: exits the position
+    FillExit(usize),
     SnapOpen(RC),
     SnapCancelled(RC),
     Trading(bool),
@@ -373,12 +389,14 @@ pub enum Ev {
     CancelResp(RC, bool),
     /// market `DataKind::OrderBookL1` for the instrument
     MarketL1(usize),
+    /// `SendOpenRequests` carrying this many opens (cids `b0..`, spread over the exchanges) - a long batch
+    CmdOpenBulk(usize),
 }
 impl Ev {
     /// Probe events widen the input alphabet of the "while disabled" rules (no strategy request on ANY
     /// event kind; the state keeps updating on EVERY event kind) without multiplying the state space.
     fn is_probe(&self) -> bool {
-        matches!(self, Ev::AcctReconnecting(_) | Ev::MktReconnecting(_) | Ev::Balance(_) | Ev::AcctSnapshot(_) | Ev::CancelResp(..) | Ev::MarketL1(_))
+        matches!(self, Ev::AcctReconnecting(_) | Ev::MktReconnecting(_) | Ev::Balance(_) | Ev::AcctSnapshot(_) | Ev::CancelResp(..) | Ev::MarketL1(_) | Ev::CmdOpenBulk(_))
     }
 }
 #[derive(Debug, Clone, PartialEq, Eq, Hash, Serialize, Deserialize)]
@@ -508,6 +526,8 @@ fn st_of(es: EState) -> St {
 // Model
 // ------------------------------------------------------------------------------------------------
 
+/// length of the long batches (`Ev::CmdOpenBulk`, the strategy's bulk proposal)
+const BULK: usize = 24;
 const POOL: [&str; 8] = ["o1", "o2", "o3", "o4", "o5", "o6", "o7", "o8"];
 const MODES: [Option<TxMode>; 4] =
     [Some(TxMode::Healthy), Some(TxMode::Closed), None, Some(TxMode::Unhealthy)];
@@ -533,6 +553,11 @@ pub struct Cov {
     disabled_probe_updates_changed_state: AtomicU64,
     close_positions_cancels: AtomicU64,
     recoverable_only_ticks_checked: AtomicU64,
+    commands_under_refusing_risk: AtomicU64,
+    reopens_of_tracked_cid_sent: AtomicU64,
+    position_exit_ticks: AtomicU64,
+    bulk_ticks: AtomicU64,
+    funded_roots: AtomicU64,
 }
 fn bump(a: &AtomicU64) {
     a.fetch_add(1, Ordering::Relaxed);
@@ -550,10 +575,17 @@ pub struct M {
     fill_ins: Vec<usize>,
     /// bound on simultaneously tracked pool orders (keeps the reachable set finite)
     max_tracked: usize,
+    /// true = the histories start from engine states whose asset balances are KNOWN (a balance snapshot for
+    /// every asset has been processed: too small for the alphabet's opens on exchange 0, ample elsewhere)
+    funded: bool,
     pub cov: Cov,
 }
 
 impl M {
+    pub fn funded(mut self, funded: bool) -> Self {
+        self.funded = funded;
+        self
+    }
     pub fn new(n_ex: usize, max_tracked: usize) -> Self {
         // exchange 0: i0 (btc/usdt), i1 (eth/usdt); exchange e>0: i{e+1} (btc/usdt)
         let mut b = IndexedInstruments::builder();
@@ -570,7 +602,7 @@ impl M {
         }
         let home = (0..n_ex).map(|e| e + 1).collect();
         let n_ins = instruments.instruments().len();
-        Self { n_ex, instruments, home, fill_ins: [0usize, 2].into_iter().filter(|i| *i < n_ins).collect(), max_tracked, cov: Cov::default() }
+        Self { n_ex, instruments, home, fill_ins: [0usize, 2].into_iter().filter(|i| *i < n_ins).collect(), max_tracked, funded: false, cov: Cov::default() }
     }
 
     fn ex_of_ins(&self, ins: usize) -> usize {
@@ -599,15 +631,15 @@ impl M {
                 instrument: InstrumentIndex(*i),
                 kind: DataKind::Trade(PublicTrade { id: "1".into(), price: 100.0, amount: 1.0, side: Side::Buy }),
             })),
-            Ev::Fill(i) => EngineEvent::Account(AccountStreamEvent::Item(AccountEvent {
+            Ev::Fill(i) | Ev::FillExit(i) => EngineEvent::Account(AccountStreamEvent::Item(AccountEvent {
                 exchange: ExchangeIndex(self.ex_of_ins(*i)),
                 kind: AccountEventKind::Trade(Trade {
-                    id: TradeId::new("t1"),
+                    id: TradeId::new(if matches!(ev, Ev::Fill(_)) { "t1" } else { "t2" }),
                     order_id: OrderId::new("ox"),
                     instrument: InstrumentIndex(*i),
                     strategy: strategy_id(),
                     time_exchange: t_plus(1),
-                    side: if *i == 0 { Side::Buy } else { Side::Sell },
+                    side: if (*i == 0) == matches!(ev, Ev::Fill(_)) { Side::Buy } else { Side::Sell },
                     price: Decimal::from(100),
                     quantity: Decimal::from(2),
                     fees: AssetFees::quote_fees(Decimal::ZERO),
@@ -644,6 +676,7 @@ impl M {
             }
             Ev::Trading(b) => EngineEvent::TradingStateUpdate(if *b { TradingState::Enabled } else { TradingState::Disabled }),
             Ev::CmdOpen(rs) => EngineEvent::Command(Command::SendOpenRequests(OneOrMany::from_iter(rs.iter().map(open_req)))),
+            Ev::CmdOpenBulk(n) => EngineEvent::Command(Command::SendOpenRequests(OneOrMany::from_iter(self.bulk(*n).iter().map(open_req)))),
             Ev::CmdCancel(rs) => EngineEvent::Command(Command::SendCancelRequests(OneOrMany::from_iter(rs.iter().map(cancel_req)))),
             Ev::CmdClose(f) => EngineEvent::Command(Command::ClosePositions(self.filter(f))),
             Ev::CmdCancelOrders(f) => EngineEvent::Command(Command::CancelOrders(self.filter(f))),
@@ -776,6 +809,13 @@ impl M {
         for t in targets {
             v.push((vec![], vec![t.clone()]));
         }
+        // the strategy re-opens under the cid of an order it tracks as open / cancel-in-flight (`id` is known
+        // exactly for those states) on the same instrument
+        if let Some(t) = targets.iter().find(|t| t.ex < self.n_ex && t.id.is_some()) {
+            v.push((vec![RO { ex: t.ex, ins: t.ins, cid: t.cid.clone() }], vec![]));
+            // ... or cancels it without naming the exchange's order id
+            v.push((vec![], vec![RC { id: None, ..t.clone() }]));
+        }
         v.push((vec![], vec![untracked]));
         if can1 {
             if let Some(t) = targets.first() {
@@ -784,6 +824,18 @@ impl M {
             }
         }
         v
+    }
+
+    /// a long batch of opens under cids outside the pool, spread over the exchanges (and, on exchange 0, over
+    /// its two instruments)
+    fn bulk(&self, n: usize) -> Vec<RO> {
+        (0..n)
+            .map(|j| {
+                let ex = j % self.n_ex;
+                let ins = if ex == 0 { (j / self.n_ex) % 2 } else { self.home[ex] };
+                RO { ex, ins, cid: format!("b{j}") }
+            })
+            .collect()
     }
 
     /// two opens of one batch: on two exchanges (on the two instruments of the only exchange if there is one)
@@ -881,8 +933,12 @@ impl M {
             events.push(spec(Ev::Market(i), 0, BTreeSet::new()));
         }
         for &i in &self.fill_ins {
-            if es.instruments.0.get_index(i).map(|(_, s)| s.position.current.is_none()).unwrap_or(false) {
-                events.push(spec(Ev::Fill(i), 0, BTreeSet::new()));
+            match es.instruments.0.get_index(i).map(|(_, s)| s.position.current.is_none()) {
+                Some(true) => events.push(spec(Ev::Fill(i), 0, BTreeSet::new())),
+                // the opposite fill: the tick on which the position is exited (the engine reports a
+                // PositionExit output) is an account event like any other
+                Some(false) => events.push(spec(Ev::FillExit(i), 0, BTreeSet::new())),
+                None => {}
             }
         }
         // (an order naming an unknown exchange can only be tracked by a defective engine; no snapshot for it)
@@ -915,8 +971,19 @@ impl M {
                 events.push(spec(Ev::CmdOpen(vec![RO { ex: e, ins: self.home[e], cid: t.cid.clone() }]), 0, [e].into()));
             }
         }
+        // an open that re-uses the cid of an order tracked on the SAME instrument and no longer open-in-flight
+        // (a user / strategy re-submitting under an id it used before): it is a sent open like any other -
+        // delivered once and from then on shown as (open) in flight
+        for t in targets.iter().filter(|t| t.ex < self.n_ex && t.id.is_some()) {
+            events.push(spec(Ev::CmdOpen(vec![RO { ex: t.ex, ins: t.ins, cid: t.cid.clone() }]), 0, [t.ex].into()));
+        }
         for t in &targets {
             events.push(spec(Ev::CmdCancel(vec![t.clone()]), 0, [t.ex].into()));
+        }
+        // a cancel that names the order by its key only (`RequestCancel.id == None`: the issuer does not know, or
+        // did not yet know, the exchange's order id) although the tracked order has been acknowledged
+        for t in targets.iter().filter(|t| t.ex < self.n_ex && t.id.is_some()) {
+            events.push(spec(Ev::CmdCancel(vec![RC { id: None, ..t.clone() }]), 0, [t.ex].into()));
         }
         if targets.len() == 2 {
             events.push(spec(Ev::CmdCancel(targets.clone()), 0, targets.iter().map(|t| t.ex).collect()));
@@ -962,10 +1029,11 @@ impl M {
         for &i in &market_ins {
             events.push(spec(Ev::MarketL1(i), 0, BTreeSet::new()));
         }
+        events.push(spec(Ev::CmdOpenBulk(BULK), 0, BTreeSet::new()));
 
         let mut acts = Vec::new();
         for EvSpec { ev, used, addr: ev_addr, close_cancels } in events {
-            let is_cmd = matches!(ev, Ev::CmdOpen(_) | Ev::CmdCancel(_) | Ev::CmdClose(_) | Ev::CmdCancelOrders(_));
+            let is_cmd = matches!(ev, Ev::CmdOpen(_) | Ev::CmdOpenBulk(_) | Ev::CmdCancel(_) | Ev::CmdClose(_) | Ev::CmdCancelOrders(_));
             let probe = ev.is_probe();
             let enabled_after = match ev {
                 Ev::Trading(b) => b,
@@ -1010,6 +1078,36 @@ impl M {
                     }
                 }
             }
+            // a command next to a risk manager that refuses whatever it is asked (idle strategy, healthy links):
+            // the command is still actioned - or, should the engine consult the risk manager for it, every
+            // request it drops is reported as refused
+            if is_cmd {
+                acts.push(Act {
+                    ev: Some(ev.clone()),
+                    opens: vec![],
+                    cancels: vec![],
+                    refuse_opens: true,
+                    refuse_cancels: true,
+                    links: vec![Some(TxMode::Healthy); self.n_ex],
+                    refuse_cids: vec![],
+                    close_cancels: close_cancels.clone(),
+                    real: false,
+                });
+            }
+        }
+        // ---- a long batch proposed by the strategy (on a probe event, healthy links, approving risk manager)
+        if enabled {
+            acts.push(Act {
+                ev: Some(Ev::MarketL1(0)),
+                opens: self.bulk(BULK),
+                cancels: vec![],
+                refuse_opens: false,
+                refuse_cancels: false,
+                links: vec![Some(TxMode::Healthy); self.n_ex],
+                refuse_cids: vec![],
+                close_cancels: vec![],
+                real: false,
+            });
         }
         // ---- direct calls of generate_algo_orders() (complete return value), only where the engine
         // itself would call it
@@ -1234,6 +1332,11 @@ impl Obs<'_> {
             }
         }
     }
+    /// `r` opens an order under a (instrument, cid) that is already tracked
+    fn reopen(&self, r: &ExecutionRequest) -> bool {
+        let (is_open, _, ins, cid) = parts(r);
+        is_open && order_of(self.pre, ins, &cid).is_some()
+    }
     /// Some(description) if `r` is NOT shown as in flight although it should be
     fn not_in_flight(&self, r: &ExecutionRequest) -> Option<String> {
         let (is_open, _, ins, cid) = parts(r);
@@ -1306,7 +1409,11 @@ fn check_reports(obs: &Obs, rep: &Reports, has_audit: bool, out: &mut Vec<Viol>)
         let n = out.len();
         let k = kind_name(r);
         let lk = link_kind(obs.links, parts(r).1);
-        if lk == LinkKind::Healthy {
+        if lk == LinkKind::Healthy && obs.reopen(r) {
+            // an engine may decline to open a second order under a client order id it still tracks (the
+            // statement does not say such a request has to be sent): reported with an error, nowhere
+            // delivered, no mark - checked below
+        } else if lk == LinkKind::Healthy {
             out.push(("C03/failed-report/link-was-healthy".into(), format!("{} reported failed although its link is healthy: {r:?}", src.s())));
         } else if lk.fatal() != *fatal {
             out.push((
@@ -1351,6 +1458,10 @@ fn check_issued(obs: &Obs, rep: &Reports, flagged: &[String], src: Src, r: &Exec
     let k = kind_name(r);
     let lk = link_kind(obs.links, parts(r).1);
     let (nr, nt) = (obs.n_right(r), obs.n_total(r));
+    // (see `check_reports`: a re-open under a tracked cid may also be declined - reported failed, not delivered, no mark)
+    if lk == LinkKind::Healthy && obs.reopen(r) && nt == 0 && rep.failed.iter().any(|(s, x, _)| *s == src && x == r) && obs.marked(r, rep).is_none() {
+        return;
+    }
     if lk == LinkKind::Healthy {
         // a command and the strategy may issue the identical cancel in one tick: then it is reported
         // (and, by R1, delivered) once per issuer
@@ -1379,10 +1490,11 @@ fn ev_kind(ev: &Ev) -> &'static str {
     match ev {
         Ev::Market(_) => "market",
         Ev::Fill(_) => "account-fill",
+        Ev::FillExit(_) => "account-fill-position-exit",
         Ev::SnapOpen(_) | Ev::SnapCancelled(_) => "account-order-snapshot",
         Ev::Trading(true) => "trading-enabled",
         Ev::Trading(false) => "trading-disabled",
-        Ev::CmdOpen(_) => "send-open-requests",
+        Ev::CmdOpen(_) | Ev::CmdOpenBulk(_) => "send-open-requests",
         Ev::CmdCancel(_) => "send-cancel-requests",
         Ev::CmdClose(_) => "close-positions",
         Ev::CmdCancelOrders(_) => "cancel-orders",
@@ -1514,8 +1626,21 @@ impl M {
     fn step_process(&self, pre: &EState, ev: &Ev, a: &Act, out: &mut Vec<Viol>) -> Option<EState> {
         let event = self.event(ev, pre);
         bump(&self.cov.process_calls);
-        if ev.is_probe() {
+        let probe = ev.is_probe();
+        if probe {
             bump(&self.cov.probe_ticks);
+        }
+        // a long batch is judged like the SendOpenRequests command it is
+        let expanded;
+        let ev = if let Ev::CmdOpenBulk(n) = ev {
+            bump(&self.cov.bulk_ticks);
+            expanded = Ev::CmdOpen(self.bulk(*n));
+            &expanded
+        } else {
+            ev
+        };
+        if a.opens.len() >= BULK {
+            bump(&self.cov.bulk_ticks);
         }
         addn(&self.cov.close_positions_cancels, a.close_cancels.len());
         let (res, post_state, logs) = self.run_job(pre, a, &Job::Process(event.clone()));
@@ -1545,6 +1670,15 @@ impl M {
         }
         let obs = Obs { pre, post, logs, links: &a.links, touched: self.touched(ev) };
         self.count(&rep);
+        if matches!(ev, Ev::FillExit(_)) {
+            bump(&self.cov.position_exit_ticks);
+        }
+        for (_, r) in &rep.sent {
+            let (is_open, _, ins, cid) = parts(r);
+            if is_open && order_of(pre, ins, &cid).is_some_and(|o| !matches!(o.state, ActiveOrderState::OpenInFlight(_))) {
+                bump(&self.cov.reopens_of_tracked_cid_sent);
+            }
+        }
         if rep.audit_errors > 0 {
             bump(&self.cov.terminal_ticks);
             // "fatal": the audit of a tick that carries an unrecoverable error is terminal for the engine's
@@ -1727,26 +1861,35 @@ impl M {
             if !pre_enabled {
                 bump(&self.cov.commands_while_disabled);
             }
+            if a.refuse_opens && a.refuse_cancels && proposals.is_empty() {
+                bump(&self.cov.commands_under_refusing_risk);
+            }
             let rule = format!("C03/command-actioned/while-{trading}");
             let want = match ev {
                 Ev::CmdOpen(_) => "OpenOrders",
                 Ev::CmdCancel(_) | Ev::CmdCancelOrders(_) => "CancelOrders",
                 _ => "ClosePositions",
             };
-            if rep.cmd_output != Some(want) {
+            // (an engine that consults the risk manager for commands would report through the output kind
+            // that has `refused` lists)
+            let output_ok = rep.cmd_output == Some(want) || (rep.cmd_output == Some("GenerateAlgoOrders") && !rep.refused.is_empty());
+            if !output_ok {
                 out.push((format!("{rule}/no-{want}-output"), format!("{ev:?}: audit carries command output {:?}", rep.cmd_output)));
             }
+            // "a request refused by the risk manager is reported as refused and never delivered": the one way a
+            // commanded request may stay unissued (the shipped engine bypasses the risk manager for commands)
+            let refused_ok = |r: &ExecutionRequest| rep.refused.contains(r) && obs.n_total(r) == 0 && obs.marked(r, &rep).is_none();
             // (a command that left no output at all is reported once, not once per request)
             match ev {
-                _ if rep.cmd_output != Some(want) => {}
+                _ if !output_ok => {}
                 Ev::CmdOpen(rs) => {
-                    for r in rs {
-                        check_issued(&obs, &rep, &flagged, Src::Cmd, &ExecutionRequest::Open(open_req(r)), &rule, true, out);
+                    for r in rs.iter().map(|r| ExecutionRequest::Open(open_req(r))).filter(|r| !refused_ok(r)) {
+                        check_issued(&obs, &rep, &flagged, Src::Cmd, &r, &rule, true, out);
                     }
                 }
                 Ev::CmdCancel(rs) => {
-                    for r in rs {
-                        check_issued(&obs, &rep, &flagged, Src::Cmd, &ExecutionRequest::Cancel(cancel_req(r)), &rule, true, out);
+                    for r in rs.iter().map(|r| ExecutionRequest::Cancel(cancel_req(r))).filter(|r| !refused_ok(r)) {
+                        check_issued(&obs, &rep, &flagged, Src::Cmd, &r, &rule, true, out);
                     }
                 }
                 Ev::CmdCancelOrders(f) => {
@@ -1756,8 +1899,9 @@ impl M {
                         let live = !matches!(o.state, ActiveOrderState::CancelInFlight(_));
                         if live && self.filt_matches(f, ins) && link_kind(&a.links, ex) == LinkKind::Healthy {
                             let n = obs.logs[ex].iter().filter(|x| matches!(x, ExecutionRequest::Cancel(c) if c.key.cid.0.as_str() == cid && c.key.instrument.index() == ins)).count();
+                            let refused = rep.refused.iter().any(|x| matches!(x, ExecutionRequest::Cancel(c) if c.key.cid.0.as_str() == cid && c.key.instrument.index() == ins));
                             // (the strategy may cancel the same order in the same tick: at least one)
-                            if n < 1 {
+                            if n < 1 && !refused {
                                 out.push((format!("{rule}/cancel-orders-request-missing"), format!("{ev:?}: order {cid} on instrument {ins} got {n} cancel requests on its link")));
                             }
                         }
@@ -1766,15 +1910,16 @@ impl M {
                 Ev::CmdClose(f) => {
                     // the cancels the strategy answered with are requests of the command: issued like those of
                     // SendCancelRequests (healthy link => delivered once, in flight, reported; else failed)
-                    for r in &a.close_cancels {
-                        check_issued(&obs, &rep, &flagged, Src::Cmd, &ExecutionRequest::Cancel(cancel_req(r)), &rule, true, out);
+                    for r in a.close_cancels.iter().map(|r| ExecutionRequest::Cancel(cancel_req(r))).filter(|r| !refused_ok(r)) {
+                        check_issued(&obs, &rep, &flagged, Src::Cmd, &r, &rule, true, out);
                     }
                     for (ins, (_, st)) in pre.instruments.0.iter().enumerate() {
                         let ex = self.ex_of_ins(ins);
                         if st.position.current.is_some() && st.data.price().is_some() && self.filt_matches(f, ins) && link_kind(&a.links, ex) == LinkKind::Healthy {
                             let n = obs.logs[ex].iter().filter(|x| matches!(x, ExecutionRequest::Open(o) if o.key.instrument.index() == ins)).count();
+                            let refused = rep.refused.iter().any(|x| matches!(x, ExecutionRequest::Open(o) if o.key.instrument.index() == ins));
                             // the strategy may open on the same instrument in the same tick: at least one
-                            if n < 1 {
+                            if n < 1 && !refused {
                                 out.push((format!("{rule}/close-positions-request-missing"), format!("{ev:?}: instrument {ins} holds a position and a price but no open reached its link")));
                             }
                         }
@@ -1785,7 +1930,7 @@ impl M {
         }
 
         // ---- R5: state keeps updating while disabled = same update as an enabled engine performs
-        let state_event = ev.is_probe() || matches!(ev, Ev::Market(_) | Ev::Fill(_) | Ev::SnapOpen(_) | Ev::SnapCancelled(_));
+        let state_event = (probe && !is_cmd) || matches!(ev, Ev::Market(_) | Ev::Fill(_) | Ev::FillExit(_) | Ev::SnapOpen(_) | Ev::SnapCancelled(_));
         if !pre_enabled && proposals.is_empty() && state_event {
             bump(&self.cov.disabled_state_updates_checked);
             let healthy = vec![Some(TxMode::Healthy); self.n_ex];
@@ -1801,14 +1946,14 @@ impl M {
             }
             if pre.instruments != post.instruments || pre.connectivity != post.connectivity || pre.assets != post.assets {
                 bump(&self.cov.disabled_state_updates_changed_state);
-                if ev.is_probe() {
+                if probe {
                     bump(&self.cov.disabled_probe_updates_changed_state);
                 }
             }
         }
 
         // terminal tick (fatal error or shutdown): the engine stops, no successor
-        if rep.audit_errors > 0 || matches!(ev, Ev::Shutdown) || ev.is_probe() {
+        if rep.audit_errors > 0 || matches!(ev, Ev::Shutdown) || probe {
             return None;
         }
         Some(post_state)
@@ -1826,10 +1971,38 @@ impl Model for M {
     type Action = Act;
 
     fn init(&self) -> Vec<St> {
-        vec![
-            st_of(fresh_state(&self.instruments, TradingState::Disabled)),
-            st_of(fresh_state(&self.instruments, TradingState::Enabled)),
-        ]
+        [TradingState::Disabled, TradingState::Enabled]
+            .into_iter()
+            .map(|trading| {
+                if !self.funded {
+                    return st_of(fresh_state(&self.instruments, trading));
+                }
+                // the real engine (idle strategy, trading enabled) processes one balance snapshot per asset;
+                // the trading state of the root is set afterwards (whether a DISABLED engine keeps its
+                // balances up to date is rule R5's subject, not a precondition of this configuration)
+                let fresh = fresh_state(&self.instruments, TradingState::Enabled);
+                let healthy = vec![Some(TxMode::Healthy); self.n_ex];
+                let (mut engine, _t) = mk_engine(&self.instruments, fresh, &healthy, ScriptStrategy::default(), ScriptRisk::default());
+                for k in 0..self.instruments.assets().len() {
+                    let free = if self.ex_of_asset(k) == 0 { 5 } else { 1000 };
+                    let _ = engine.process(EngineEvent::Account(AccountStreamEvent::Item(AccountEvent {
+                        exchange: ExchangeIndex(self.ex_of_asset(k)),
+                        kind: AccountEventKind::BalanceSnapshot(Snapshot(AssetBalance {
+                            asset: AssetIndex(k),
+                            balance: Balance { total: Decimal::from(free), free: Decimal::from(free) },
+                            time_exchange: t_plus(0),
+                        })),
+                    })));
+                }
+                // (an engine that ignores balance snapshots leaves the root unfunded: the exploration is then the
+                // plain one again - sound, and counted in the evidence)
+                if engine.state.assets.0.values().all(|a| a.balance.is_some()) {
+                    bump(&self.cov.funded_roots);
+                }
+                engine.state.trading = trading;
+                st_of(engine.state)
+            })
+            .collect()
     }
     fn actions(&self, s: &St) -> Vec<Act> {
         self.gen_actions(&s.es)
@@ -1870,13 +2043,21 @@ fn cov_json(c: &Cov) -> Value {
         "disabled_probe_updates_changed_state": g(&c.disabled_probe_updates_changed_state),
         "close_positions_strategy_cancels_checked": g(&c.close_positions_cancels),
         "recoverable_failure_ticks_not_terminal": g(&c.recoverable_only_ticks_checked),
+        "commands_under_refusing_risk_manager": g(&c.commands_under_refusing_risk),
+        "reopens_of_tracked_cid_reported_sent": g(&c.reopens_of_tracked_cid_sent),
+        "position_exit_ticks": g(&c.position_exit_ticks),
+        "long_batch_ticks": g(&c.bulk_ticks),
+        "roots_with_known_asset_balances": g(&c.funded_roots),
     })
 }
 
-/// (exchanges, bound on tracked pool orders, depth)
-fn configs(ctx: &Ctx) -> Vec<(usize, usize, usize)> {
+/// (exchanges, bound on tracked pool orders, depth, histories start with known asset balances)
+fn configs(ctx: &Ctx) -> Vec<(usize, usize, usize, bool)> {
     // (the single-exchange system is the most common deployment: index 0 valid, every other index unknown)
-    ctx.tier.pick(vec![(2, 2, 4), (1, 2, 4)], vec![(2, 2, 6), (2, 3, 4), (3, 2, 4), (1, 2, 6)])
+    ctx.tier.pick(
+        vec![(2, 2, 4, false), (1, 2, 4, false), (2, 2, 3, true)],
+        vec![(2, 2, 6, false), (2, 3, 4, false), (3, 2, 4, false), (1, 2, 6, false), (2, 2, 4, true), (1, 2, 4, true)],
+    )
 }
 
 pub fn run(ctx: &Ctx) -> Outcome {
@@ -1884,9 +2065,9 @@ pub fn run(ctx: &Ctx) -> Outcome {
     let (mut states, mut transitions, mut distinct, mut max_depth) = (0usize, 0u64, 0usize, 0usize);
     let mut samples = Vec::new();
     let mut totals: std::collections::BTreeMap<String, u64> = Default::default();
-    for (n_ex, k, depth) in configs(ctx) {
-        let m = M::new(n_ex, k);
-        let label = format!("ex={n_ex},k={k}");
+    for (n_ex, k, depth, funded) in configs(ctx) {
+        let m = M::new(n_ex, k).funded(funded);
+        let label = format!("ex={n_ex},k={k}{}", if funded { ",funded" } else { "" });
         let st = bfs::run(ctx, &m, &label, Some(depth), 20_000_000);
         if st.capped {
             eprintln!("MACHINERY: C03 BFS hit the state cap before depth {depth}");
@@ -1902,7 +2083,7 @@ pub fn run(ctx: &Ctx) -> Outcome {
                 *totals.entry(key.clone()).or_insert(0) += v.as_u64().unwrap_or(0);
             }
         }
-        per.push(json!({"label": label, "exchanges": n_ex, "max_tracked_pool_orders": k, "depth": depth,
+        per.push(json!({"label": label, "exchanges": n_ex, "max_tracked_pool_orders": k, "depth": depth, "known_asset_balances": funded,
             "states": st.states, "transitions": st.transitions, "frontier_sizes": st.frontier_sizes,
             "fixpoint": st.fixpoint, "counters": cj}));
         samples.extend(st.samples);
@@ -1910,7 +2091,8 @@ pub fn run(ctx: &Ctx) -> Outcome {
     // non-vacuity: the interesting branches must have been exercised
     for key in ["requests_reported_sent", "requests_reported_failed_fatal", "requests_reported_failed_recoverable", "requests_reported_refused",
         "disabled_ticks_with_strategy_proposal", "enabling_event_generations", "commands_while_disabled", "disabled_state_updates_changed_state",
-        "real_channel_ticks", "probe_event_ticks", "disabled_probe_updates_changed_state", "close_positions_strategy_cancels_checked"] {
+        "real_channel_ticks", "probe_event_ticks", "disabled_probe_updates_changed_state", "close_positions_strategy_cancels_checked",
+        "commands_under_refusing_risk_manager", "reopens_of_tracked_cid_reported_sent", "position_exit_ticks", "long_batch_ticks"] {
         if totals.get(key).copied().unwrap_or(0) == 0 {
             eprintln!("MACHINERY: C03 exploration never exercised `{key}`");
             std::process::exit(2);
@@ -1925,7 +2107,7 @@ pub fn run(ctx: &Ctx) -> Outcome {
         "exhaustive": true,
         "per_configuration": per,
         "samples": samples,
-        "rule": "BFS over the real EngineState (canonicalised); every transition = one real Engine::process (or direct generate_algo_orders) with strategy output (algo + ClosePositions cancels), risk verdict (per kind / per request) and per-exchange link fault mode chosen by the explorer, links scripted or real UnboundedTx channels; probe events (reconnect notices, balance / full account snapshots, cancel responses, L1) judged in every state without successor; oracle R1-R7 on audit (+ is_terminal) + link logs + order state per (instrument, cid)",
+        "rule": "BFS over the real EngineState (canonicalised), from fresh states and from states with known asset balances; every transition = one real Engine::process (or direct generate_algo_orders) with strategy output (algo + ClosePositions cancels), risk verdict (per kind / per request; refuse-all next to every command) and per-exchange link fault mode chosen by the explorer, links scripted or real UnboundedTx channels; opens under fresh cids, under a cid tracked on another instrument and under a cid tracked on the same instrument; cancels with and without the exchange's order id; fills that enter and exit positions; probe events (reconnect notices, balance / full account snapshots, cancel responses, L1, 24-request batches by command and by the strategy) judged in every state without successor; oracle R1-R7 on audit (+ is_terminal) + link logs + order state per (instrument, cid)",
     });
     if let Value::Object(o) = &mut cov {
         for (k, v) in totals {
@@ -1936,7 +2118,10 @@ pub fn run(ctx: &Ctx) -> Outcome {
         level: "model_checking",
         coverage: cov,
         assumptions: vec![
-            "client order ids are unique per order (fresh ids for every open; ClosePositions uses one deterministic id per instrument)".into(),
+            "opens use fresh client order ids, except: ClosePositions (one deterministic id per instrument), the twin open under a cid tracked on another instrument, and the re-open under a cid tracked as open / cancel-in-flight on the same instrument (which an engine may also decline with a reported error)".into(),
+            "funded configurations: asset balances are set once (one balance snapshot per asset processed by the real engine before the history) and only probe events touch them afterwards".into(),
+            "long batches (24 opens) are probe ticks with healthy links and an approving risk manager".into(),
+            "a commanded request may stay unissued only when the audit reports it as refused (the shipped engine bypasses the risk manager for commands)".into(),
             "histories bounded by depth; at most 2-3 simultaneously tracked strategy/command orders; 1-3 exchanges, 2-4 instruments".into(),
             "client order ids are unique per instrument only: the same cid may be tracked on two instruments (never cancelled and re-opened in one tick)".into(),
             "probe events (reconnect notices, balance snapshot, full account snapshot, cancel response, market L1) are executed in every reached state with healthy links and a reduced strategy menu, and have no successor; whether the strategy is consulted on a reconnect notice while enabled is not demanded".into(),
@@ -1961,7 +2146,7 @@ pub fn replay(ctx: &Ctx, case: &Value) {
             k = v.parse().unwrap_or(2);
         }
     }
-    let m = M::new(n_ex, k);
+    let m = M::new(n_ex, k).funded(label.split(',').any(|p| p == "funded"));
     for (sig, detail) in bfs::replay(&m, case) {
         ctx.violate(sig, detail, case.clone());
     }
